@@ -1,5 +1,6 @@
 import TcVerif.Props.C08
 import TcVerif.Props.C04
+import TcVerif.Proofs.CleanupStep
 /-!
 # C11 — A failure inside a server's add-version leaves the backend usable
 
@@ -129,6 +130,21 @@ theorem C11_replica_recovers {S : Sys} (h : Reachable S) (r : Nat) :
     ∧ S.err = false
     ∧ ((S.reps r).L = [] → (S.reps r).k = S.chain.length → (S.reps r).T = replay S) :=
   ⟨C04_invariant_always h r, C02_no_out_of_sync h, fun hL hk => C01_convergence h r hL hk⟩
+
+/-! ## Object-store level
+
+In the request-level machine of the object store (C09/C10, `Proofs/CleanupModel.lean`) a client
+may stop after ANY of its requests: that is the `abandon` step.  A stopped `add_version` has
+either performed its compare-and-swap (the version is on the chain) or not (at most an orphan
+object is left, which `get_child_version` never serves and cleanup removes).  Every theorem about
+reachable states therefore already covers every stopping point of every client. -/
+
+theorem C11_object_store_stop_anywhere {S : Cl.Sys} (h : Cl.Reachable S) (i : Nat) :
+    Cl.Reachable (Cl.setPc S i .idle)
+    ∧ (∀ x ∈ (Cl.setPc S i .idle).served, x ∈ (Cl.setPc S i .idle).sub ∧ x.2.1 ∈ (Cl.setPc S i .idle).chain)
+    ∧ (∀ n ∈ (Cl.setPc S i .idle).acked, n ∈ (Cl.setPc S i .idle).chain) := by
+  have hr : Cl.Reachable (Cl.setPc S i .idle) := Cl.Reachable.step h (Cl.Step.abandon S i)
+  exact ⟨hr, fun x hx => ⟨(Cl.served_only_chain hr x hx).1, (Cl.served_only_chain hr x hx).2.1⟩, Cl.acked_on_chain hr⟩
 
 /-- non-vacuity: a history with an interrupted-and-accepted and an interrupted-and-absent request -/
 example : (({} : ChainSrv).events [.add 0 "a" 1, .interruptedAdd 1 "b" 2 true, .interruptedAdd 2 "c" 3 false,
